@@ -700,7 +700,10 @@ class RunGen:
             return f"float({self.int_e(d - 1, rd)})"
         if r < 0.90:
             return f"({self.int_e(d - 1, rd)} / {rng.choice(['4.0', '2.0', '0.5'])})"
-        return f"({self.float_e(d - 1, rd)} if {self.bool_e(d - 1, rd)} else {self.float_e(d - 1, rd)})"
+        a, b = self.float_e(d - 1, rd), (self.int_e(d - 1, rd) if rng.random() < 0.6 else self.float_e(d - 1, rd))
+        if rng.random() < 0.5:
+            a, b = b, a                                   # the float/int join of a conditional expression, both orders
+        return f"({a} if {self.bool_e(d - 1, rd)} else {b})"
 
     def bool_e(self, d, rd):
         rng = self.rng
@@ -953,7 +956,7 @@ WITNESSES = {
 
 def part_c(ctx, stats):
     rng = ctx.rng
-    n = 420 if ctx.tier == "thorough" else 48
+    n = 1000 if ctx.tier == "thorough" else 48
     gens, progs = [], []
     for _ in range(n):
         g = RunGen(rng)
